@@ -1,4 +1,5 @@
-\* C04 behaviour generation: 3 nodes, T = 2.
+\* C04 behaviour generation: 3 nodes, T = 2, up to 2 KV.Delete calls (ObsoleteEntriesTimeout 2 s);
+\* about a quarter of the behaviours start with the relay script.
 CONSTANTS
   N = 3
   NI = 2
@@ -14,6 +15,11 @@ CONSTANTS
   AllowGarbage = TRUE
   AllowPartition = FALSE
   AllowJunkPP = FALSE
+  GateNodes = {}
+  InboxCap = 1
+  VersionTest = TRUE
+  MaxDel = 2
+  ObsoleteTimeout = 2
   ConsumeNet = FALSE
   Ideal = TRUE
   Ghost = TRUE
@@ -23,6 +29,6 @@ CONSTANTS
   QRounds = 2
 INIT Init
 NEXT SimNext
-INVARIANTS TypeOK TombstonesInvisible NoInventedContent WatcherNeverStale QuiescentOK EmitDone
-PROPERTIES TombstonesForwarded NoResurrection GCOnlyExpired NoExpiredTombstoneStored OnlyChangesForwarded
+INVARIANTS TypeOK TombstonesInvisible NoInventedContent WatcherNeverStale PrefixWatcherNeverStale QuiescentOK EmitDone
+PROPERTIES TombstonesForwarded NoResurrection GCOnlyExpired NoExpiredTombstoneStored OnlyChangesForwarded DeletedStaysDeleted RemovedOnlyWhenObsolete DeletedNotRevived
 CHECK_DEADLOCK FALSE
